@@ -1578,6 +1578,10 @@ func (h *ResponseHeader) AddBytesV(key string, value []byte) {
 // it will be sent after the chunked response body.
 func (h *ResponseHeader) AddBytesKV(key, value []byte) {
 	h.bufK, h.bufV = initHeaderKV(h.bufK, h.bufV, b2s(key), b2s(value), h.disableNormalizing)
+	if headerKeyBreaksFieldLine(h.bufK) {
+		// The key cannot be sent as a field name, ignore the header.
+		return
+	}
 	if h.setSpecialHeader(h.bufK, h.bufV) {
 		return
 	}
@@ -1651,6 +1655,10 @@ func (h *ResponseHeader) SetBytesKV(key, value []byte) {
 // If the header is set as a Trailer (forbidden trailers will not be set, see SetTrailer for more details),
 // it will be sent after the chunked response body.
 func (h *ResponseHeader) SetCanonical(key, value []byte) {
+	if headerKeyBreaksFieldLine(key) {
+		// The key cannot be sent as a field name, ignore the header.
+		return
+	}
 	h.bufV = initHeaderValueBytes(h.bufV, value)
 	if h.setSpecialHeader(key, h.bufV) {
 		return
@@ -1809,6 +1817,10 @@ func (h *RequestHeader) AddBytesV(key string, value []byte) {
 // it will be sent after the chunked request body.
 func (h *RequestHeader) AddBytesKV(key, value []byte) {
 	h.bufK, h.bufV = initHeaderKV(h.bufK, h.bufV, b2s(key), b2s(value), h.disableNormalizing)
+	if headerKeyBreaksFieldLine(h.bufK) {
+		// The key cannot be sent as a field name, ignore the header.
+		return
+	}
 	if h.setSpecialHeader(h.bufK, h.bufV) {
 		return
 	}
@@ -1882,6 +1894,10 @@ func (h *RequestHeader) SetBytesKV(key, value []byte) {
 // If the header is set as a Trailer (forbidden trailers will not be set, see SetTrailer for more details),
 // it will be sent after the chunked request body.
 func (h *RequestHeader) SetCanonical(key, value []byte) {
+	if headerKeyBreaksFieldLine(key) {
+		// The key cannot be sent as a field name, ignore the header.
+		return
+	}
 	h.bufV = initHeaderValueBytes(h.bufV, value)
 	if h.setSpecialHeader(key, h.bufV) {
 		return
@@ -3480,6 +3496,19 @@ func normalizeHeaderKeyValidated(b []byte, disableNormalizing bool) {
 		upper = c == '-'
 		b[i] = c
 	}
+}
+
+// headerKeyBreaksFieldLine reports whether key, written as a field name,
+// would change the way a peer splits the field line: a ':' ends the name
+// early (the rest becomes part of the value, so the peer sees another field)
+// and leading whitespace turns the whole line into a continuation (obs-fold)
+// of the previous field's value. Such a key cannot be represented in an
+// HTTP/1.x message.
+func headerKeyBreaksFieldLine(key []byte) bool {
+	if len(key) > 0 && (key[0] == ' ' || key[0] == '\t') {
+		return true
+	}
+	return bytes.IndexByte(key, ':') >= 0
 }
 
 // removeNewLines will replace `\r` and `\n` with an empty space.
